@@ -15,6 +15,11 @@ TIMER = {'test': 'TestVerifTimer', 'comp': 'timer', 'quick': {'VERIF_N': 200, 'V
 ASND = {'test': 'TestVerifAssocSender', 'comp': 'as', 'pairs': True, 'quick': {'VERIF_N': 150, 'VERIF_OPS': 200},
         'thorough': {'VERIF_N': 600, 'VERIF_OPS': 300}, 'seeds': {'quick': 1, 'thorough': 8}}
 
+# RACK / PTO / TLR scenario generator on the same direct-drive harness (go/harness/rack_test.go): every `as` op is followed by a
+# white-box `as rk` snapshot that Driver/Rack.lean compares with Model/Rack.lean (also on the lines of ASND)
+ARACK = {'test': 'TestVerifAssocRack', 'comp': 'as', 'pairs': True, 'quick': {'VERIF_N': 100, 'VERIF_OPS': 160},
+         'thorough': {'VERIF_N': 400, 'VERIF_OPS': 260}, 'seeds': {'quick': 1, 'thorough': 8}, 'corpus_glob': 'rack_*.ops'}
+
 
 HSD = {'test': 'TestVerifHandshake', 'comp': 'hs', 'quick': {'VERIF_N': 96},
        'thorough': {'VERIF_N': 960}, 'seeds': {'quick': 1, 'thorough': 8}}
@@ -53,14 +58,22 @@ CODEC = {'test': 'TestVerifCodec', 'comp': 'codec', 'quick': {'VERIF_N': 1500}, 
 
 PROPS = {
     'C05': {'jobs': [RQ]},
-    'C16': {'jobs': [GENF, RQ, ASND]},
+    'C16': {'jobs': [GENF, RQ, ASND, ARACK]},
     'C01': {'jobs': [REASM, E2E_T], 'assumptions': [
         'component theorem: the association hands each TSN to the stream at most once (C05) and chunks are the sender\'s fragments',
         'fewer than 2^15 ordered messages of a stream outstanding (SSN half-space; known finding D15); fewer than 2^31 TSNs/MIDs outstanding']},
     'C11': {'jobs': [REASM], 'assumptions': [
         'sum of len(userData) over all chunks ever pushed < 2^63 (uint64 counter / int conversion in subtractNumBytes)']},
-    'C02': {'jobs': [E2E_T], 'rule': E2E_RULE},
-    'C06': {'jobs': [E2E_PR, E2E_T, E2E_API, REASM, ASND], 'rule': E2E_RULE},
+    'C02': {'jobs': [E2E_T, ARACK], 'rule': E2E_RULE, 'assumptions': [
+        'theorems (Props/C02rack.lean) are about the loss-recovery COMPONENT Model/Rack.lean (RACK, RACK timer, PTO, TLR gate), not about end-to-end liveness; the system-level claim stays with the e2e predicate',
+        'Model/Rack.lean is hand-written control flow over translator-generated conditions and formulas (go/extract/exprs.go, block RACK / PTO / TLR); tied by comparing a white-box snapshot of the real Association with the model after EVERY op of the direct-drive harness (rk lines)',
+        'environment of the component (quantified over in the theorems, computed from the sender model / RTO model in the driver): SRTT readings, inFastRecovery, t3RTX.isRunning() (taken from the log), pending-queue size, which chunks a gather (re)transmits and abandons; the clock is taken from the log',
+        'reachable-state theorems (C02_rack_invariant, C02_rack_timer_inert) assume RunOK: a new chunk gets a TSN that is not in flight, only in-flight chunks are retransmitted, a valid SRTT reading is not negative (proved for the generated conversion over Rat)',
+        'time.Time is modelled as Int nanoseconds with the zero Time = 0 and every real reading > 0; float64 SRTT enters through the generated conversion sites (Rat in theorems, Float in the driver)',
+    ]},
+    'C06': {'jobs': [E2E_PR, E2E_T, E2E_API, REASM, ASND, ARACK], 'rule': E2E_RULE, 'assumptions': [
+        'theorems (Props/C06rack.lean) cover ONE clause only: no loss-recovery path (RACK on SACK, RACK timer, PTO, T3 mark-all) flags an acknowledged or abandoned chunk for retransmission, on Model/Rack.lean (tied by the rk snapshots of the direct-drive harness); integrity / at-most-once / policy bounds remain e2e + Reasm + PolicySpec',
+    ]},
     'C07': {'jobs': [E2E_PR], 'rule': E2E_RULE},
     'C08': {'jobs': [E2E_SD], 'rule': E2E_RULE},
     'C04': {'jobs': [HSD, E2E_HS, E2E_T], 'assumptions': [
@@ -68,7 +81,8 @@ PROPS = {
         'the blocking behaviour of Client/Server calls, T1 retry budget and connect failure are covered by the e2e handshake scenarios and by C19 theorems, not by the Hs model',
         'verification tags and ports are not part of the model (the implementation does not check inbound verification tags)']},
     'C14': {'jobs': [E2E_RS], 'rule': E2E_RULE},
-    'C10': {'jobs': [ASND, E2E_T], 'assumptions': [
+    'C10': {'jobs': [ASND, ARACK, E2E_T], 'assumptions': [
+        'TLR burst budget (Props/C10tlr.lean): theorems about tlrAllowSendLocked as generated (Model/Rack.lean), proved equal to the gate the sender model is replayed with; the budget/active oracle values of every gather are now CHECKED against Rack.tlrBudgetScaled, the RACK/PTO marks against the RACK model (rk lines); the bound is per gather - the code has no per-RTT accounting',
         'L0 model Model/Sender.lean is hand-written; its window tests / updates / congestion formulas / chunk sizes are translator-generated Gen.* defs; the rest is tied by comparing every op of the direct-drive harness',
         'oracles (quantified over in the theorems, recorded from the real code in the harness): TLR burst budget, pending-queue selection, RACK/PTO loss marks, T3 expiries during a clock tick',
         'window theorems assume no uint32 wrap (ghost flag wrapWin: < 2^32 bytes in flight, cwnd + increment < 2^32) and MTU < 2^30',
